@@ -680,7 +680,7 @@ v("c08-twin-loop-continue-form", "C08", PB,
 # ---------------------------------------------------------------- C03
 PM = "polars_model.py"
 v("c03-max-calls-min", "C03", PM, "        \"max\": lambda x: x.max(),", "        \"max\": lambda x: x.min(),")
-v("c03-first-calls-last", "C03", PM, "        \"first\": lambda x: x.first(),", "        \"first\": lambda x: x.last(),")
+v("c03-first-calls-last", "C03", PM, "        \"first\": lambda x: x.drop_nulls().first(),", "        \"first\": lambda x: x.drop_nulls().last(),")
 v("c03-bfill-forward", "C03", PM, "        \"bfill\": lambda x: x.fill_null(strategy=\"backward\"),", "        \"bfill\": lambda x: x.fill_null(strategy=\"forward\"),")
 v("c03-minus-swapped", "C03", PM, "        \"-\": lambda a, b: a - b,", "        \"-\": lambda a, b: b - a,")
 v("c03-lt-is-le", "C03", PM, "        \"<\": lambda a, b: a < b,", "        \"<\": lambda a, b: a <= b,")
@@ -785,7 +785,7 @@ v("c12-sqlnode-not-in-eval-env", "C12", "expr_parse_fn.py", "    TableDescriptio
 v("c18-count-numbered-in-row-order", "C18", PB,
   "                    if (zero_op == \"row_number\") or (\n                        (zero_op == \"count\") and (len(op.order_by) > 0)\n                    ):",
   "                    if zero_op in {\"row_number\", \"count\"}:")
-v("c03-order-rows-nulls-first", "C03", PM, "            by=op.order_columns, descending=reversed_cols, nulls_last=True\n", "            by=op.order_columns, descending=reversed_cols\n")
+v("c03-order-rows-nulls-first", "C03", PM, "            by=op.order_columns,\n            descending=reversed_cols,\n            nulls_last=True,\n", "            by=op.order_columns,\n            descending=reversed_cols,\n")
 
 
 # ---------------------------------------------------------------- reverts of the repairs D33-D39
@@ -957,3 +957,18 @@ v("d65-binding-by-index", "C22", DS,
 v("d67-insert-stores-before-describing", "C20", DMS,
   "        description = data_algebra.data_ops.describe_table(value, table_name=key)\n        self.data_map[key] = value\n        return description\n",
   "        self.data_map[key] = value\n        return data_algebra.data_ops.describe_table(value, table_name=key)\n")
+
+v("d68-trimstr-length-is-stop", "C05", SM,
+  '        + ", ("\n        + dbmodel.expr_to_sql(expression.args[2], want_inline_parens=False)\n        + ") - ("\n        + dbmodel.expr_to_sql(expression.args[1], want_inline_parens=False)\n        + "))"\n',
+  '        + ", "\n        + dbmodel.expr_to_sql(expression.args[2], want_inline_parens=False)\n        + ")"\n')
+v("d69-polars-first-keeps-null", "C03", PM, '        "first": lambda x: x.drop_nulls().first(),', '        "first": lambda x: x.first(),')
+v("d70-polars-window-nulls-first", "C03", PM,
+  "                descending=reversed_cols,\n                nulls_last=True,\n                maintain_order=True,\n            )  # missing order keys last",
+  "                descending=reversed_cols,\n                maintain_order=True,\n            )  # missing order keys last")
+v("d71-pandas-cross-as-outer", "C16", PB, '            "cross": "inner",', '            "cross": "outer",')
+v("d72-polars-maximum-ignores-null", "C03", PM,
+  '            "maximum": lambda *args: pl.when(\n                pl.any_horizontal([a.is_null() for a in args])\n            )\n            .then(None)\n            .otherwise(pl.max_horizontal(args)),',
+  '            "maximum": lambda *args: pl.max_horizontal(args),')
+v("d72-polars-minimum-ignores-null-c05", "C05", PM,
+  '            "minimum": lambda *args: pl.when(\n                pl.any_horizontal([a.is_null() for a in args])\n            )\n            .then(None)\n            .otherwise(pl.min_horizontal(args)),',
+  '            "minimum": lambda *args: pl.min_horizontal(args),')
